@@ -279,6 +279,8 @@ pub async fn real_at(u: &Unimock, x: u8) -> u64 {
 #[unimock(api = GenMock)]
 pub trait Gen<T> {
     fn g(&self, x: T) -> u64;
+    /// its signature does not mention `T`: the instantiations are still distinct methods
+    fn nt(&self, x: u8) -> u64;
 }
 
 #[unimock(api = GenMMock)]
@@ -312,6 +314,28 @@ pub fn real_n0(u: &Unimock, x: u8) -> u64 {
 #[unimock(api = GenIMock)]
 pub trait GenI {
     fn gi(&self, x: impl Into<u64> + Copy + 'static) -> u64;
+}
+
+// a required method whose answer function clones the instance it is given, and a provided method in
+// front of it: through the default body that instance is the delegation helper (C09)
+#[unimock(api = StashMock)]
+pub trait Stash {
+    fn stash_req(&self, x: u8) -> u64;
+    fn stash_prov(&self, x: u8) -> u64 {
+        self.stash_req(x)
+    }
+}
+
+thread_local! {
+    static STASH: std::cell::RefCell<Vec<Unimock>> = const { std::cell::RefCell::new(Vec::new()) };
+}
+
+pub fn stash_put(u: Unimock) {
+    STASH.with(|s| s.borrow_mut().push(u));
+}
+
+pub fn stash_take() -> Option<Unimock> {
+    STASH.with(|s| s.borrow_mut().pop())
 }
 
 // a method without parameters: its inputs are zero-sized, its matchers still decide
@@ -455,6 +479,7 @@ pub fn dispatch_ref(u: &Unimock, m: M, x: u8, y: u8) -> u64 {
             let _ = u.lend_clone(x);
             7
         }
+        M::StashReq => u.stash_req(x),
         M::GenU8 => <Unimock as Gen<u8>>::g(u, x),
         M::GenU16 => <Unimock as Gen<u16>>::g(u, x as u16),
         M::GmU8 => u.gm::<u8>(x),
@@ -462,6 +487,8 @@ pub fn dispatch_ref(u: &Unimock, m: M, x: u8, y: u8) -> u64 {
         M::N0 => u.n0(x),
         M::GiU8 => u.gi(x),
         M::GiU16 => u.gi(x as u16),
+        M::GnU8 => <Unimock as Gen<u8>>::nt(u, x),
+        M::GnU16 => <Unimock as Gen<u16>>::nt(u, x),
         M::GpU8 => u.gp::<u8>(x),
         M::GpU16 => u.gp::<u16>(x as u16),
         M::Z0 => u.z0(),
@@ -609,9 +636,12 @@ pub fn type_ids() -> &'static Vec<(TypeId, M)> {
             (tid_of(&GenMMock::gm.with_types::<u16>()), M::GmU16),
             (tid_of(&GenIMock::gi.with_types::<u8>()), M::GiU8),
             (tid_of(&GenIMock::gi.with_types::<u16>()), M::GiU16),
+            (tid_of(&GenMock::nt.with_types::<u8>()), M::GnU8),
+            (tid_of(&GenMock::nt.with_types::<u16>()), M::GnU16),
             (tid_of(&GenMMock::gp.with_types::<u8>()), M::GpU8),
             (tid_of(&GenMMock::gp.with_types::<u16>()), M::GpU16),
             (TypeId::of::<ZeroMock::z0>(), M::Z0),
+            (TypeId::of::<StashMock::stash_req>(), M::StashReq),
         ]
     })
 }
